@@ -127,6 +127,7 @@ func init() {
 	register("C11", &core.Rule{ID: "C11.4", Title: "sends in the export goroutine are cancellable by the same contributor", Mod: core.ModCBP, Floor: 1, Run: c11_4})
 	register("C11", &core.Rule{ID: "C11.6", Title: "the waiter keeps receiving until every part of its request was answered (an early leaver strands the export goroutines of the remaining parts)", Mod: core.ModCBP, Floor: 2, Run: c06_5})
 	register("C06", &core.Rule{ID: "C06.9", Title: "a reply is abandoned only when that waiter's own context is done (otherwise the waiters behind it in the batch never get their outcome)", Mod: core.ModCBP, Floor: 1, Run: c11_4})
+	register("C11", &core.Rule{ID: "C11.11", Title: "what the shutdown drain receives is exported: the item handler adds every received request to the batch on every path (an item dropped there was accepted and is never exported, yet Shutdown returns)", Mod: core.ModCBP, Floor: 2, Run: c05_7})
 	register("C11", &core.Rule{ID: "C11.5", Title: "shard loop drains, flushes and returns on shutdown", Mod: core.ModCBP, Floor: 3, Run: c05_6})
 }
 
